@@ -281,7 +281,7 @@ def install(E):
     reg(Contract(
         'Kripke.clone', 'kripke', [('self', 'kripke')], ret='kripke',
         requires=lambda c: [('wf', wfK(c.h0, c.self.t))],
-        ensures=clone_ens, loops={1: clone_l1}, touches={'dd', 'dv', 'sets', 'fld__next', 'fld__labels', 'fld_S0'}, loop_touches={1: {'dd', 'dv', 'sets'}}, owner='C14'))
+        ensures=clone_ens, loops={1: clone_l1}, touches={'dd', 'dv', 'sets', 'rels', 'fld__next', 'fld__labels', 'fld_S0'}, loop_touches={1: {'dd', 'dv', 'sets'}}, owner='C14'))
 
     # -- get_substructure -------------------------------------------------------------
     def sub_raise(c):
@@ -343,7 +343,7 @@ def install(E):
         hints={'slice_noraise': r'(raises:RuntimeError:if:ret\d+:cut[12]$|^ensures:(transitions|initial_states|states|labels):ret\d+$)',
                'cuts': {'raises:RuntimeError:only_if': [sub_cut_edges, sub_cut_states],
                         'raises:RuntimeError:if': [sub_cut_retained_are_given, sub_cut_E_is_induced]}},
- touches={'dd', 'dv', 'sets', 'fld__next', 'fld__labels', 'fld_S0'}, owner='C14'))
+ touches={'dd', 'dv', 'sets', 'rels', 'fld__next', 'fld__labels', 'fld_S0'}, owner='C14'))
 
     # -- fairness (C15: "no call raises an internal error or modifies K"; C07 with fairness) ---------------
     # FRAME and SAFETY only: what get_fair_states returns is wrong on the pinned tree (KF-C15-1) and is
@@ -396,7 +396,7 @@ def install(E):
     reg(Contract(
         'Kripke.get_fair_states', 'kripke', [('self', 'kripke'), ('F', 'iterRefSets')], ret='set',
         requires=lambda c: [('wf', wfK(c.h0, c.self.t)), fairsets_valid(c)], ensures=gfs_ens,
-        loops={1: gfs_l1}, loop_touches={1: {'sets'}}, touches={'sets', 'dd', 'dv', 'fld__next'},
+        loops={1: gfs_l1}, loop_touches={1: {'sets'}}, touches={'sets', 'dd', 'dv', 'fld__next', 'rels'},
         hints={'call': {'compute_SCCs': gfs_scc_hint}}, owner='C15',
         note='frame and safety only (result: a new set of states); the set itself is wrong on the pinned tree, KF-C15-1'))
 
@@ -429,6 +429,6 @@ def install(E):
         'Kripke.label_fair_states', 'kripke', [('self', 'kripke'), ('F', 'iterRefSets')], ret='H',
         requires=lambda c: [('wf', wfK(c.h0, c.self.t)), ('no_None_state', z3.Not(V(c.h0, c.self.t)[hp.NONE_H])), fairsets_valid(c)],
         ensures=lambda c: structure_kept(c.h0, c.h1, c.self.t), frame=lfs_frame, may_write=lfs_may_write,
-        loops={1: lfs_l1, 2: lfs_l2}, loop_touches={1: set(), 2: {'sets'}}, touches={'sets', 'dd', 'dv', 'fld__next'},
+        loops={1: lfs_l1, 2: lfs_l2}, loop_touches={1: set(), 2: {'sets'}}, touches={'sets', 'dd', 'dv', 'fld__next', 'rels'},
         hints={'format_is_H': True}, owner='C15',
         note='frame and safety only: writes go to the CONTENTS of the label sets of self; termination of the renaming loop not claimed'))
